@@ -212,17 +212,85 @@ def _functions(tree):
     return out
 
 
+class _EraseSelfAttrs(ast.NodeTransformer):
+    def visit_Attribute(self, n):
+        self.generic_visit(n)
+        if isinstance(n.value, ast.Name) and n.value.id == "self":
+            n.attr = "_"
+        return n
+
+
+def class_attr_sigs(cls):
+    """instance attributes of a class: name -> signature of the statements `self.<name> = <value>` anywhere in the class, in source
+    order, with the names of locals and of other self attributes erased (so that a renamed attribute keeps its signature)"""
+    sigs = {}
+    for fn in [n for n in cls.body if isinstance(n, (ast.FunctionDef, ast.AsyncFunctionDef))]:
+        order, _ = binding_order(fn)
+        er = {n: "_" for n in order if n != "self"}
+        for n in _ordered(fn):
+            tg = n.targets if isinstance(n, ast.Assign) else ([n.target] if isinstance(n, ast.AnnAssign) and n.value is not None else [])
+            for t in tg:
+                if isinstance(t, ast.Attribute) and isinstance(t.value, ast.Name) and t.value.id == "self":
+                    v = _EraseSelfAttrs().visit(_Ren(er).visit(copy.deepcopy(n.value)))
+                    sigs.setdefault(t.attr, []).append(fn.name + ":" + ast.dump(v))
+    return {k: hashlib.sha1("|".join(v).encode()).hexdigest()[:16] for k, v in sigs.items()}
+
+
+def describe_classes(tree):
+    out = {}
+
+    def walk(body, prefix):
+        for n in body:
+            if isinstance(n, ast.ClassDef):
+                out[".".join(prefix + [n.name])] = {"attrs": class_attr_sigs(n)}
+                walk(n.body, prefix + [n.name])
+
+    walk(tree.body, [])
+    return out
+
+
+def restore_attributes(tree, relpath):
+    """instance attributes of the baseline that are no longer assigned in their class: if exactly one new attribute of that class has the
+    same assignment signature, every `.new` in the module is renamed back to `.old` (only if `.old` occurs nowhere in the module)"""
+    base = {k.split("::", 1)[1]: v for k, v in _baseline().items() if k.startswith(relpath + "::")}
+    if not base:
+        return {}
+    cur = describe_classes(tree)
+    used = {n.attr for n in ast.walk(tree) if isinstance(n, ast.Attribute)}
+    ren = {}
+    for cname, b in base.items():
+        c = cur.get(cname)
+        if c is None:
+            continue
+        missing = [a for a in b["attrs"] if a not in c["attrs"]]
+        extra = [a for a in c["attrs"] if a not in b["attrs"]]
+        for old in missing:
+            cands = [x for x in extra if c["attrs"][x] == b["attrs"][old] and x not in ren]
+            if len(cands) == 1 and old not in used and ren.get(cands[0], old) == old:
+                ren[cands[0]] = old
+    if not ren or len(set(ren.values())) != len(ren):
+        return {}
+    for n in ast.walk(tree):
+        if isinstance(n, ast.Attribute) and n.attr in ren:
+            n.attr = ren[n.attr]
+    note = f"{relpath}: instance attributes renamed back to the contract's names (same assignment signature): " + ", ".join(f".{n} -> .{o}" for n, o in sorted(ren.items()))
+    if note not in NOTES:
+        NOTES.append(note)
+    return ren
+
+
 def restore_module(tree, relpath):
     """functions / methods of the baseline that no longer exist under their name: if exactly one new function of the same class is
     alpha-equivalent to the baseline body, the definition and every reference in this module (obj.<new>, bare <new>) are renamed back
     (in place).  Applied only if the old name occurs nowhere in the current module.  Returns {new: old}."""
-    base = {k.split(":", 1)[1]: v for k, v in _baseline().items() if k.startswith(relpath + ":")}
+    ren_attrs = restore_attributes(tree, relpath)
+    base = {k.split(":", 1)[1]: v for k, v in _baseline().items() if k.startswith(relpath + ":") and not k.startswith(relpath + "::")}
     if not base:
-        return {}
+        return dict(ren_attrs)
     cur = _functions(tree)
     missing = [q for q in base if q not in cur]
     if not missing:
-        return {}
+        return dict(ren_attrs)
     extra = [q for q in cur if q not in base]
     canon_of = {q: canon(cur[q]) for q in extra}
     mp = {}
@@ -232,7 +300,7 @@ def restore_module(tree, relpath):
         if len(cands) == 1:
             mp[cands[0]] = q
     if not mp:
-        return {}
+        return dict(ren_attrs)
     used = {n.attr for n in ast.walk(tree) if isinstance(n, ast.Attribute)} | {n.id for n in ast.walk(tree) if isinstance(n, ast.Name)} | {q.rpartition(".")[2] for q in cur}
     ren = {}
     for new_q, old_q in mp.items():
@@ -242,7 +310,7 @@ def restore_module(tree, relpath):
         ren[new] = old
         cur[new_q].name = old
     if not ren:
-        return {}
+        return dict(ren_attrs)
     for n in ast.walk(tree):
         if isinstance(n, ast.Attribute) and n.attr in ren:
             n.attr = ren[n.attr]
@@ -251,4 +319,4 @@ def restore_module(tree, relpath):
     note = f"{relpath}: functions renamed back to the contract's names (alpha-equivalent bodies): " + ", ".join(f"{n} -> {o}" for n, o in sorted(ren.items()))
     if note not in NOTES:
         NOTES.append(note)
-    return ren
+    return {**ren_attrs, **ren}
